@@ -10,7 +10,7 @@
 From Coq Require Import List ZArith QArith Qcanon Floats Permutation.
 From TK Require Import Mat_Sums Mat_Qc Knn_Spec Tsne_Model Tsne_Vp_Model Tsne_Sym_Model Tsne_Spec
   Tsne_Proof_Dense Tsne_Proof_KL Tsne_Proof_Perp Tsne_Proof_K Tsne_Proof_Vp Tsne_Proof_Sym Tsne_Proof_Sym2 Tsne_Proof_SymSpec Tsne_Proof_Csr Tsne_BH_Model Tsne_Proof_BH
-  Tsne_PerpRed_Model Tsne_Proof_PerpRed Tsne_Proof_Converge.
+  Tsne_PerpRed_Model Tsne_Proof_PerpRed Tsne_Proof_Converge Tsne_Race_Model Tsne_Proof_Race.
 From TK Require QuadTree_Model QuadTree_Spec QuadTree_SpecExec QuadTree_Proof_Gradient QuadTree_Proof_Final.
 Import ListNotations.
 
@@ -448,3 +448,30 @@ Example bh_gradient_limit_nonvacuous :
                (QuadTree_Model.init QuadTree_Proof_Final.ex_root) = QuadTree_Model.Done true t) /\
   ~ (QuadTree_Proof_Gradient.total_sq QuadTree_Proof_Final.ex_data2 (seq 0 (length ex_rows)) (seq 0 (length ex_rows)) == 0)%Q.
 Proof. exact bh_gradient_limit_nonvacuous_ex. Qed.
+
+(* ---------------------------------------------------------------- the quadtree's scratch buffer (wave 2)
+   c18's model computes a node's contribution from the point directly; the C++ goes through the node's MEMBER
+   buff[2] (written, then read back).  Tsne_Race_Model.v makes the buffer explicit: callers t (own point pts t,
+   own accumulators) issue Wr t (buff := pts t - com) and Rd t (accumulate from buff) on one node.
+   (1) any schedule in which every caller finishes a call before the next call starts — what the serial loops of
+   TSNE::computeGradient / evaluateError do — gives every caller exactly c18's add_summary, once per call: the
+   abstraction under bh_gradient_limit is sound for the code as it is (no parallel region in these headers; the
+   check scans for that on every run). *)
+Theorem nonedge_forces_serial_schedule : forall (com : QuadTree_Model.pt) (cum : nat) (pts : nat -> QuadTree_Model.pt)
+  (ts : list nat) (s : rstate) (u : nat),
+  facc_eq (r_acc (rrun com cum pts s (atomic ts)) u)
+          (iter_summary com cum (count_occ Nat.eq_dec ts u) (pts u) (r_acc s u)).
+Proof. exact atomic_schedule_is_serial_thm. Qed.
+Print Assumptions nonedge_forces_serial_schedule.
+
+(* (2) interleaved callers are NOT covered: Wr 0; Wr 1; Rd 0; Rd 1 on one node makes caller 0 accumulate the force
+   and the sum_Q term of caller 1's point (what `#pragma omp parallel for` over the non-edge loop does: seeded
+   change C17_1_r2; the check's TG stream observes it at N >= 1000 with >= 2 threads) *)
+Theorem nonedge_forces_not_reentrant_refuted :
+  exists (com : QuadTree_Model.pt) (cum : nat) (pts : nat -> QuadTree_Model.pt),
+    let serial := r_acc (rrun com cum pts race_init [Wr 0; Rd 0; Wr 1; Rd 1]%nat) 0%nat in
+    let raced  := r_acc (rrun com cum pts race_init [Wr 0; Wr 1; Rd 0; Rd 1]%nat) 0%nat in
+    facc_eq serial (QuadTree_Model.add_summary (pts 0%nat) cum com (0, 0, 0)%Q) /\
+    ~ (fst (fst raced) == fst (fst serial))%Q /\ ~ (snd raced == snd serial)%Q.
+Proof. exact nonedge_forces_not_reentrant_refuted_thm. Qed.
+Print Assumptions nonedge_forces_not_reentrant_refuted.
